@@ -64,7 +64,7 @@ PLAN['C02'] = {
 PLAN['C06'] = {
     'stages': lambda tier, seed: (
         [core('core_undo1', ['mod', 'undo'], 7, 3, stack=1, und=1),
-         core('core_undo2', ['mod', 'undo', 'prove'], 5, 2, stack=2, und=2, probe=1)] if tier == 'quick' else
+         core('core_undo2', ['mod', 'undo', 'prove'], 4, 2, stack=2, und=2, probe=1)] if tier == 'quick' else
         [core('core_undo1', ['mod', 'undo'], 8, 4, stack=1, und=1),
          core('core_undo2', ['mod', 'undo', 'prove'], 6, 3, stack=2, und=2, probe=1),
          core('core_undo3', ['mod', 'undo'], 6, 2, stack=3, und=3),
@@ -76,7 +76,7 @@ PLAN['C06'] = {
             'branch). After the undo the complete observation (roots, leaf count, position of every live and dead leaf, '
             'GetHash on every position, provable set, proofs of subsets) must equal the expectation of the earlier '
             'abstract state. Non-trivial: the line contains an undo; distinct by (witness history, step).',
-    'bounds': {'quick': 'depth 1: n<=7, adds 0..3; depth 2 (two undos, with Prove of every subset): n<=5, adds 0..2',
+    'bounds': {'quick': 'depth 1: n<=7, adds 0..3; depth 2 (two undos, with Prove of every subset): n<=4, adds 0..2',
                'thorough': 'depth 1: n<=8, adds 0..4; depth 2: n<=6, adds 0..3; depth 3: n<=6, adds 0..2; wide (TotalRows 0, 3, 63): every state with 9..11 leaves of which at most 3 are live is an initial state, one block with 0..5 adds, undo, redo'},
     'exhaustive': {'quick': True, 'thorough': True},
     'assumptions': ['free term algebra for hashes',
